@@ -32,3 +32,40 @@ class BudgetReader(io.BytesIO):
     def readline(self, *a):
         self._tick()
         return super().readline(*a)
+
+
+import contextlib
+import os
+import time
+
+HOST_ZONES = [None, 'UTC0', 'JST-9', 'EST5EDT,M3.2.0,M11.1.0', 'NST3:30NDT,M3.2.0,M11.1.0', 'XXX-14', 'YYY12']
+
+
+@contextlib.contextmanager
+def host_tz(zone):
+    """run the body as on a host whose local time zone is `zone` (POSIX TZ string; None = leave the host as it is).
+    Decoded instants and rendered dates are specified in UTC or in an explicitly given zone, never in the host's."""
+    if zone is None:
+        yield
+        return
+    old = os.environ.get('TZ')
+    os.environ['TZ'] = zone
+    time.tzset()
+    try:
+        yield
+    finally:
+        if old is None:
+            os.environ.pop('TZ', None)
+        else:
+            os.environ['TZ'] = old
+        time.tzset()
+
+
+def zoned(prop):
+    """the property evaluated on a host whose local zone is case['zone']"""
+    def run(ctx, case):
+        with host_tz(case.get('zone')):
+            return prop(ctx, case)
+    run.__name__ = prop.__name__
+    run.__doc__ = prop.__doc__
+    return run
